@@ -1,5 +1,6 @@
 import DimodModel.Bqm
 import DimodModel.PyBqm
+import DimodModel.BqmScaleIgn
 import DimodModel.Wire
 open Wire
 
@@ -8,6 +9,9 @@ open Wire
     answer ::= ("ok"|"err") " " state            state ::= VT;labels;linear;u:v:bias…;offset   (lower triangle, index order)
     "read" via  → the reads of that view as coded: linear;u:v:bias…;offset
     "rd"        → all readers of the model (see `showReaders`)
+    via "sci" scalar IV II IO  → `scale(scalar, ignored_variables, ignored_interactions, ignore_offset)` (`Bqm.vScaleIgnoring`)
+    via "nz" lmin lmax qmin qmax IV II IO → `normalize(...)` with the parsed ranges (`Bqm.vNormalize`)
+        IV ::= "N" (None) | "-" (empty) | label,…     II ::= "N" | "-" | label~label,…     IO ::= "0" | "1"
     dict back-end (`PyB`, a second state): "pnew" VT | "pload" VT offset rows | "p" op args…   (data-level primitives only)
     answer ::= ("ok"|"err") " " VT;offset;label>key=bias&key=bias…;…   (dict order) | "unsupported" -/
 
@@ -148,6 +152,16 @@ def stepP (p : PyB) (ws : List String) : PyB × String :=
     | none => (p, "bad-op")
   | _ => (p, "bad-op")
 
+def parseIgnVars (s : String) : Option (Option (List Label)) :=
+  if s = "N" then some none else ((csv s).mapM parseLabel?).map some
+
+def parseIgnPairs (s : String) : Option (Option (List (Label × Label))) :=
+  if s = "N" then some none else
+  ((csv s).mapM fun (it : String) =>
+    match it.splitOn "~" with
+    | [u, v] => do pure ((← parseLabel? u), (← parseLabel? v))
+    | _ => none).map some
+
 def reply (r : Bqm × Option ErrC) : Bqm × String :=
   match r.2 with
   | none => (r.1, "ok " ++ showState r.1)
@@ -163,6 +177,16 @@ def step (m : Bqm) (line : String) : Bqm × String :=
   | ["en", xs] =>
     let vals := (xs.splitOn ",").filterMap parseRat?
     (m, "ok " ++ showRat (m.energy vals))
+  | [v, "sci", sc, iv, ii, io] =>
+    match via? v, parseRat? sc, parseIgnVars iv, parseIgnPairs ii with
+    | some via, some sc, some iv, some ii => reply (m.vScaleIgnoring (via.tv m) via.isView sc iv ii (io == "1"), none)
+    | _, _, _, _ => bad
+  | [v, "nz", l0, l1, q0, q1, iv, ii, io] =>
+    match via? v, parseRat? l0, parseRat? l1, parseRat? q0, parseRat? q1, parseIgnVars iv, parseIgnPairs ii with
+    | some via, some l0, some l1, some q0, some q1, some iv, some ii =>
+      let r := m.vNormalize (via.tv m) via.isView (l0, l1) (q0, q1) iv ii (io == "1")
+      reply (r.1.1, r.2)
+    | _, _, _, _, _, _, _ => bad
   | v :: rest =>
     match via? v, parseOp rest with
     | some via, some op => reply (m.step via op)
